@@ -137,7 +137,7 @@ def strategy_(draw, tier):
             n2, e2 = 5, [(0, i) for i in range(1, 5)]
         z = draw(st.sampled_from([6, 14, 5]))
         return {"a": Mol.simple([z] * n1, e1, family=which + ":a").to_json(), "b": Mol.simple([z] * n2, e2, family=which + ":b").to_json(), "kind": kind, "perm_seed": seed}
-    mol = draw(gens.mols(tier, families=("er", "skeleton", "chem", "er", "wlhard", "multi"), wide=draw(st.integers(0, 3)) == 0))
+    mol = draw(gens.mols(tier, families=("er", "skeleton", "chem", "er", "wlhard", "multi", "collide"), wide=draw(st.integers(0, 3)) == 0))
     mk = draw(st.sampled_from(["two_switch", "two_switch", "move_label", "swap_elements", "mass_rad", "move_edge"]))
     return {"a": mol, "mutation": mk, "kind": kind, "perm_seed": seed, "route": draw(st.sampled_from(["graph", "graph", "v2000", "v3000"]))}
 
